@@ -57,7 +57,11 @@ impl LKHSearch {
         // repair entire solution
         // TODO can be optimized to avoid full reconstruction and repair only routes that were changed
         let mut new_solution = repair_solution_from_unknown(&new_solution, &|| {
-            InsertionContext::new(orig_solution.problem.clone(), orig_solution.environment.clone())
+            let mut insertion_ctx =
+                InsertionContext::new(orig_solution.problem.clone(), orig_solution.environment.clone());
+            remove_jobs_not_assigned_in(&mut insertion_ctx, orig_solution);
+
+            insertion_ctx
         });
 
         // accept the fact that solution can be worse
@@ -128,6 +132,27 @@ impl LKHSearch {
 
         new_solution
     }
+}
+
+/// Removes jobs which a new insertion context gets from locks, but which are not assigned in original solution:
+/// jobs locked to an actor in any order can be unassigned, so other routes of original solution might rely on that.
+fn remove_jobs_not_assigned_in(insertion_ctx: &mut InsertionContext, orig_solution: &InsertionContext) {
+    let assigned: HashSet<_> =
+        orig_solution.solution.routes.iter().flat_map(|route_ctx| route_ctx.route().tour.jobs().cloned()).collect();
+
+    let goal = insertion_ctx.problem.goal.clone();
+    let solution = &mut insertion_ctx.solution;
+
+    solution.routes.iter_mut().for_each(|route_ctx| {
+        let jobs = route_ctx.route().tour.jobs().filter(|job| !assigned.contains(*job)).cloned().collect::<Vec<_>>();
+        if !jobs.is_empty() {
+            jobs.iter().for_each(|job| {
+                route_ctx.route_mut().tour.remove(job);
+            });
+            goal.accept_route_state(route_ctx);
+            solution.required.extend(jobs);
+        }
+    });
 }
 
 fn optimize_route(route_ctx: &mut RouteContext, transport: &dyn TransportCost) {
